@@ -12,6 +12,8 @@ name clause by them; Gbnf/Compiler.v pins that they agree with the templates).  
 Also extracted: which expression feeds SchemaDefinition.name on each route (`gbnf_name_sources`: compile_gbnf_from_meta,
 extract_schema_from_document, emit_grammar_for_schema), the extractor's default name, the parser's INFERRED placeholder
 and the CONTRACT-or-FIELDS dispatch of octave_compile_grammar / octave_eject -- any other binding of the name fails closed.
+In compile_gbnf_from_meta the binding may be followed by exactly `if not isinstance(schema_type, str): schema_type = <literal>`
+(repo 61337a1): flag `gbnf_meta_type_nonstring_is_unknown` + the literal `gbnf_meta_type_nonstring_name`.
 Fail closed: any statement shape that is not recognised raises TranslateError.
 """
 import ast
@@ -106,14 +108,29 @@ def _other_name_stores(fn, obj):
     return bad
 
 
-def _name_feed(fn, var):
+def _name_feed(fn, var, allow_nonstr_guard=False):
     """The unique expression bound to local `var`, which must be what the unique SchemaDefinition(name=var, ...) call of
-    `fn` receives; no other binding of `var`, no later store to <schema>.name, no setattr / replace() on the schema."""
+    `fn` receives; no other binding of `var`, no later store to <schema>.name, no setattr / replace() on the schema.
+    With allow_nonstr_guard the binding may be followed IMMEDIATELY by exactly
+        if not isinstance(<var>, str):
+            <var> = <string literal>
+    (repo 61337a1); then the result is (expression, literal), else (expression, None)."""
     binds = [n for n in ast.walk(fn) if isinstance(n, ast.Name) and n.id == var and isinstance(n.ctx, ast.Store)]
-    need(len(binds) == 1, f"{fn.name}: `{var}` is bound {len(binds)} times (expected once)")
     asg = [n for n in fn.body if isinstance(n, ast.Assign) and len(n.targets) == 1 and isinstance(n.targets[0], ast.Name)
            and n.targets[0].id == var]
     need(len(asg) == 1, f"{fn.name}: `{var}` is not bound by one top-level assignment")
+    guard_lit = None
+    if allow_nonstr_guard and len(binds) == 2:
+        i = fn.body.index(asg[0])
+        g = fn.body[i + 1] if i + 1 < len(fn.body) else None
+        ok = (isinstance(g, ast.If) and not g.orelse and ast.unparse(g.test) == f"not isinstance({var}, str)" and len(g.body) == 1
+              and isinstance(g.body[0], ast.Assign) and len(g.body[0].targets) == 1 and ast.unparse(g.body[0].targets[0]) == var
+              and isinstance(g.body[0].value, ast.Constant) and isinstance(g.body[0].value.value, str))
+        need(ok, f"{fn.name}: second binding of `{var}` is not the guard `if not isinstance({var}, str): {var} = <literal>` "
+                 "directly after the first")
+        guard_lit = g.body[0].value.value
+    else:
+        need(len(binds) == 1, f"{fn.name}: `{var}` is bound {len(binds)} times (expected once)")
     calls = [n for n in ast.walk(fn) if isinstance(n, ast.Call) and ast.unparse(n.func) == "SchemaDefinition"]
     need(len(calls) == 1, f"{fn.name}: expected one SchemaDefinition(...) call, found {len(calls)}")
     kw = [k for k in calls[0].keywords if k.arg == "name"]
@@ -124,6 +141,8 @@ def _name_feed(fn, var):
             raise TranslateError(f"{fn.name}: store to {ast.unparse(n)}")
         if isinstance(n, ast.Call) and ast.unparse(n.func) in ("setattr", "replace", "dataclasses.replace", "object.__setattr__"):
             raise TranslateError(f"{fn.name}: {ast.unparse(n)[:60]}")
+    if allow_nonstr_guard:
+        return asg[0].value, guard_lit
     return asg[0].value
 
 
@@ -426,9 +445,13 @@ def generate(src):
     d_str("gbnf_contract_default_type", "UNKNOWN")
     # ---- which expression feeds SchemaDefinition.name, per route ----
     srcs = []
-    e = _name_feed(fn, "schema_type")
+    e, guard_lit = _name_feed(fn, "schema_type", allow_nonstr_guard=True)
     need(ast.unparse(e) == "meta.get('TYPE', 'UNKNOWN')", "compile_gbnf_from_meta: the schema name is no longer meta.get('TYPE', 'UNKNOWN')")
-    srcs.append(("compile_gbnf_from_meta", ast.unparse(e)))
+    # repo 61337a1: a TYPE value that is not a str is replaced by a literal (before: it went into SchemaDefinition.name as is
+    # and compile_schema raised on .splitlines() / .upper())
+    out.append(f"Definition gbnf_meta_type_nonstring_is_unknown : bool := {'true' if guard_lit is not None else 'false'}.\n")
+    d_str("gbnf_meta_type_nonstring_name", guard_lit if guard_lit is not None else "")
+    srcs.append(("compile_gbnf_from_meta", ast.unparse(e) + ("" if guard_lit is None else f"; if not isinstance(schema_type, str): schema_type = {guard_lit!r}")))
     xmod = parse_file(src / "core" / "schema_extractor.py")
     xfn = find_def(xmod, "extract_schema_from_document")
     e = _name_feed(xfn, "name")
